@@ -24,6 +24,10 @@ theorem observation_fresh (h : List Op) (op : Op) : lastObs stepNew h op = fresh
 theorem dataset_eq_dataarray (s : State) (n : String) :
     (stepNew s (.statDs n)).2 = (stepNew s (.statDa n)).2 := rfl
 
+/-- a reader call returns the same thing whatever ran before it — other reader calls on datasets with other sets of
+    optional variables included: its result is a function of the dataset it is given -/
+theorem reader_history_irrelevant (h : List Op) (v : Nat) : lastObs stepNew h (.readObs v) = some (.reader v) := rfl
+
 /-- number of in-place edits of each kind in a history -/
 def nEdits (h : List Op) : Nat := (h.filter (· == Op.editEfth)).length
 def nAssign (h : List Op) : Nat := (h.filter (· == Op.assignDir)).length
@@ -107,6 +111,7 @@ theorem oldInv_step (s : State) (op : Op) (hi : OldInv s)
   | attrLookup k => exact absurd rfl (hq.2.2.2 k)
   | unknownStat => exact ⟨⟨h1, h2, h2f, h3, h4, h5⟩, rfl⟩
   | read => exact ⟨⟨h1, h2, h2f, h3, h4, h5⟩, rfl⟩
+  | readObs v => exact ⟨⟨h1, h2, h2f, h3, h4, h5⟩, rfl⟩
 
 theorem oldInv_run (s : State) (h : List Op) (hi : OldInv s) (hq : Quiet h) : OldInv (run stepOld s h).1 := by
   induction h generalizing s with
@@ -138,12 +143,12 @@ theorem old_observation_fresh_partial (h : List Op) (op : Op) (hq : Quiet h)
     refine ⟨hv.1, hv.2.1, hv.2.2, Or.inl rfl, Or.inl rfl, rfl⟩
   rw [(oldInv_step _ op hf hop).2]
 
-example : Quiet [.statDs "hs", .partition 3 4, .unknownStat, .read, .statDa "tp"] := by
+example : Quiet [.statDs "hs", .partition 3 4, .unknownStat, .read, .statDa "tp", .readObs 0] := by
   intro op hop
   simp at hop
-  rcases hop with rfl | rfl | rfl | rfl | rfl <;> simp
+  rcases hop with rfl | rfl | rfl | rfl | rfl | rfl <;> simp
 
-example : lastObs stepNew [.statDs "hs", .editEfth, .assignDir, .partition 2 2] (.statDs "hs") = some ⟨1, 1, 0, true⟩ := by
+example : lastObs stepNew [.statDs "hs", .editEfth, .assignDir, .partition 2 2] (.statDs "hs") = some (.stat 1 1 0 true) := by
   decide
 
 end WS.C18
